@@ -6,6 +6,7 @@ import PyIpmi.Model.Api.Messaging
 import PyIpmi.Model.Api.Sensor
 import PyIpmi.Model.Api.Picmg
 import PyIpmi.Model.Api.Hpm
+import PyIpmi.Model.Api.Dcmi
 namespace PyIpmi.Model.Api
 open PyIpmi PyIpmi.Spec.Bmc
 
@@ -111,6 +112,8 @@ def opOfV (var : Variant) (c : Call) : Exchange :=
   | .queryRollbackStatus => if var.rollback then api_query_rollback_status_shipped else api_query_rollback_status
   | .getComponentDescription id =>
     if var.descrEscape then api_get_component_description_shipped id else api_get_component_description id
+  | .getDcmiCapabilities sel => api_get_dcmi_capabilities sel
+  | .getPowerReading mode attrs => api_get_power_reading mode attrs
 
 /-- the operation as modelled from the (fixed) code under test -/
 def opOf (c : Call) : Exchange := opOfV {} c
